@@ -1335,7 +1335,16 @@ class Ev:
         m = getattr(self, "s_" + node.__class__.__name__, None)
         if m is None:
             self.unsupported(node, "statement %s" % node.__class__.__name__)
-        return m(node)
+        r = m(node)
+        c = self.frame.root().contract
+        hooks = getattr(c, "stmt_hooks", None) if c is not None else None
+        if hooks and not self.pure:
+            # ghost code: a contract may attach ghost updates to statements of the real function (executed right after
+            # the statement; they touch ghost state only)
+            for pred, fn in hooks:
+                if pred(node):
+                    fn(self, node)
+        return r
 
     def s_Pass(self, node):
         pass
